@@ -1865,12 +1865,13 @@ class QuadraticForm(Functional):
         Notes
         -----
         The convex conjugate of the quadratic form :math:`<x, Ax> + <b, x> + c`
-        is given by
+        with a symmetric positive definite :math:`A` is given by
 
         .. math::
             (<x, Ax> + <b, x> + c)^* (x) =
-            <(x - b), A^-1 (x - b)> - c =
-            <x , A^-1 x> - <x, A^-* b> - <x, A^-1 b> + <b, A^-1 b> - c.
+            \frac{1}{4} <(x - b), A^-1 (x - b)> - c =
+            \frac{1}{4} \left( <x , A^-1 x> - <x, A^-* b> - <x, A^-1 b> +
+            <b, A^-1 b> \right) - c.
 
         If the quadratic part of the functional is zero it is instead given
         by a translated indicator function on zero, i.e., if
@@ -1900,16 +1901,17 @@ class QuadraticForm(Functional):
 
         if self.vector is None:
             # Handle trivial case separately
-            return QuadraticForm(operator=self.operator.inverse,
+            return QuadraticForm(operator=0.25 * self.operator.inverse,
                                  constant=-self.constant)
         else:
             # Compute the needed variables
             opinv = self.operator.inverse
-            vector = -opinv.adjoint(self.vector) - opinv(self.vector)
-            constant = self.vector.inner(opinv(self.vector)) - self.constant
+            vector = -0.25 * (opinv.adjoint(self.vector) + opinv(self.vector))
+            constant = (0.25 * self.vector.inner(opinv(self.vector)) -
+                        self.constant)
 
             # Create new quadratic form
-            return QuadraticForm(operator=opinv,
+            return QuadraticForm(operator=0.25 * opinv,
                                  vector=vector,
                                  constant=constant)
 
